@@ -94,6 +94,10 @@ class Bin(Term):
 def build_arg(a):
     if hasattr(a, "build_path"):
         return a.build_path()
+    if isinstance(a, list) and any(hasattr(x, "build_path") for x in a):      # a path as an item of a list argument
+        return [x.build_path() if hasattr(x, "build_path") else x for x in a]
+    if isinstance(a, dict) and any(hasattr(x, "build_path") for x in a.values()):
+        return {k: (x.build_path() if hasattr(x, "build_path") else x) for k, x in a.items()}
     return a
 
 
